@@ -26,6 +26,8 @@
 #include <map>
 #include <poll.h>
 #include <signal.h>
+#include <iostream>
+#include <sstream>
 #include <string>
 #include <sys/mman.h>
 #include <sys/time.h>
@@ -917,6 +919,24 @@ inline int driver_main(int argc, char** argv, const char* property, const std::f
 	unlink(errpath);
 	return 0;
 }
+
+// ---------------------------------------------------------------------------------------------
+// Capture what the library writes to std::cout / std::cerr during a call (warnings are part of some properties)
+struct StreamCapture
+{
+	std::ostringstream out, err;
+	std::streambuf *old_out, *old_err;
+	StreamCapture()
+	{
+		old_out = std::cout.rdbuf(out.rdbuf());
+		old_err = std::cerr.rdbuf(err.rdbuf());
+	}
+	~StreamCapture()
+	{
+		std::cout.rdbuf(old_out);
+		std::cerr.rdbuf(old_err);
+	}
+};
 
 // ---------------------------------------------------------------------------------------------
 // small numeric helpers shared by drivers
